@@ -243,10 +243,10 @@ class Interp:
 
     def __init__(self, prog, models=(), tmodels=None, unwind=16, merge=(), query_timeout_ms=60000):
         self.p = prog
-        self.models = [(re.compile(p), f) for p, f in models]
+        self.models = [(re.compile(m[0]), m[1], m[2] if len(m) > 2 else None) for m in models]
         self.tmodels = dict(tmodels or {})
         self.unwind = unwind
-        self.merge = tuple(merge)
+        self.merge = tuple(re.compile(m) for m in merge)
         self.solver = z3.Solver()
         self.solver.set('timeout', query_timeout_ms)
         self.sstack = []
@@ -259,6 +259,7 @@ class Interp:
         self.used_models = set()
         self.const_cache = {}
         self.max_depth = 400
+        self.ext_consts = {}
 
     # ------------------------------------------------------------------ solver
     def _sync(self, pc):
@@ -558,6 +559,8 @@ class Interp:
             if nm not in self.p.fns:
                 raise Unsupported('promoted const ' + c + ' in ' + base)
             return self.eval_const(nm, st, fr.tenv)
+        if c in self.ext_consts:
+            return self.ext_consts[c](self, st)
         # unit-like / tuple constant of an ADT:  path::Name  |  path::Name(()) | path::Name {{ .. }}
         m = re.fullmatch(r'((?:[\w]+::)*\w+)(?:::<.*>)?(?:\(.*\)| \{\{.*\}\})?', c)
         # named const item of a loaded crate
@@ -996,6 +999,7 @@ class Interp:
         c = Callee()
         c.text = text
         t = strip_lifetimes(text)
+        t = re.sub(r'\b\w+::core_reexport::', 'core::', t)
         t = re.sub(r"::<'\w+(?:, '\w+)*>", '', t)
         t = re.sub(r"<'\w+(, '\w+)*, ", '<', t)
         c.key = t
@@ -1045,16 +1049,16 @@ class Interp:
             yield from self.call_closure(f, args, st, fr)
             return
         key = c.key
-        for pat, fn in self.models:
-            if pat.fullmatch(key):
+        for pat, fn, guard in self.models:
+            if pat.fullmatch(key) and (guard is None or guard(self, ctx, args, st)):
                 self.used_models.add(pat.pattern)
                 yield from fn(self, ctx, args, st)
                 return
         if fr.tenv:
             skey = ctx.subst_key()
             if skey != key:
-                for pat, fn in self.models:
-                    if pat.fullmatch(skey):
+                for pat, fn, guard in self.models:
+                    if pat.fullmatch(skey) and (guard is None or guard(self, ctx, args, st)):
                         self.used_models.add(pat.pattern)
                         yield from fn(self, ctx, args, st)
                         return
@@ -1068,7 +1072,7 @@ class Interp:
         yield from self.invoke(name, args, st, tenv, fr.depth + 1)
 
     def invoke(self, name, args, st, tenv, depth=0):
-        if not any(name.endswith(m) for m in self.merge):
+        if not any(m.search(name) for m in self.merge):
             yield from self.run(name, args, st, tenv, depth)
             return
         # ---- state merging at the return of this function
@@ -1123,7 +1127,7 @@ class Interp:
                 name = self.closure_fn(clo, fr)
                 f = self.p.fns[name]
                 env = cp if f.args[0][1].startswith('&') else clo
-                yield from self.run(name, [env] + list(args), st, fr.tenv if fr else {}, (fr.depth + 1) if fr else 0)
+                yield from self.invoke(name, [env] + list(args), st, fr.tenv if fr else {}, (fr.depth + 1) if fr else 0)
                 return
         if isinstance(clo, FnItem):
             dummy = fr
@@ -1133,7 +1137,7 @@ class Interp:
             name = self.closure_fn(clo, fr)
             f = self.p.fns[name]
             env = st.ref(clo) if f.args[0][1].startswith('&') else clo
-            yield from self.run(name, [env] + list(args), st, fr.tenv if fr else {}, (fr.depth + 1) if fr else 0)
+            yield from self.invoke(name, [env] + list(args), st, fr.tenv if fr else {}, (fr.depth + 1) if fr else 0)
             return
         if isinstance(clo, Agg) and clo.name.startswith('pyfn'):
             yield from clo.fields[0](self, args, st)
